@@ -81,8 +81,17 @@ type ViolationRec struct {
 	FromSeed   bool              `json:"from_seed,omitempty"`
 	RunFrom    *int              `json:"run_from,omitempty"` // range replay: runs run_from..run of the seed in one process (state carried between runs)
 	WorkerFrom int               `json:"worker_from"`
-	Env        map[string]string `json:"env,omitempty"` // environment swarm of the worker that found it (part of the configuration)
+	Env        map[string]string `json:"env,omitempty"`        // environment swarm of the worker that found it (part of the configuration)
+	Scenario   *int              `json:"scenario,omitempty"`   // the worker was restricted to one scenario / fault class (part of the configuration)
+	RaceBuild  bool              `json:"race_build,omitempty"` // found by the race-instrumented binary: replay with it
 	ShrinkLog  string            `json:"shrink_log,omitempty"`
+}
+
+func (r ViolationRec) scenario() int {
+	if r.Scenario != nil {
+		return *r.Scenario
+	}
+	return -1
 }
 
 type Sample struct {
@@ -254,7 +263,12 @@ func oneRun(ch *simrt.Chooser, opt Options, rl *raceLog) (RunResult, []string) {
 				scen, _ = res.Config["scenario"].(string)
 			}
 			_ = scen
-			res.Failures = append(res.Failures, Failure{Oracle: "race", Sig: "C15/race/" + raceFuncs(rep), Props: []string{"C15"},
+			owner := "C15"
+			if opt.Engine == "disk" {
+				// two clients that parse their own files share nothing a caller can see: a race between them is in the parser's own state
+				owner = "C04"
+			}
+			res.Failures = append(res.Failures, Failure{Oracle: "race", Sig: owner + "/race/" + raceFuncs(rep), Props: []string{owner},
 				Msg: "data race in the library's own memory accesses (first library frame " + where + ")", Detail: short(rep, 6000)})
 		} else if len(res.Failures) == 0 {
 			// a report between harness frames only, in a run that is otherwise clean, is a harness problem;
@@ -273,10 +287,23 @@ func cmdRun(args []string) {
 	from := fs.Int("from", 0, "first run index")
 	to := fs.Int("to", 100, "one past the last run index")
 	out := fs.String("out", "", "worker result file")
-	scen := fs.Int("scenario", -1, "force a scenario (debug)")
+	scen := fs.Int("scenario", -1, "restrict the worker to one scenario / fault class (index)")
+	class := fs.String("class", "", "restrict the worker to one fault class (disk engine, by name)")
 	budget := fs.Float64("budget", 0, "stop after this many seconds (0 = none)")
 	fs.Parse(args)
 	opt := Options{Prop: *prop, Engine: engineFor(*prop), Tier: *tier, Scenario: *scen}
+	if *class != "" {
+		opt.Scenario = -1
+		for i, f := range diskFaults {
+			if f == *class {
+				opt.Scenario = i
+			}
+		}
+		if opt.Scenario < 0 || opt.Engine != "disk" {
+			fmt.Fprintln(os.Stderr, "unknown fault class", *class)
+			os.Exit(2)
+		}
+	}
 	if engines[opt.Engine] == nil {
 		fmt.Fprintln(os.Stderr, "no engine for", *prop)
 		os.Exit(2)
@@ -348,7 +375,11 @@ func cmdRun(args []string) {
 			sigs[sig] = true
 			// re-run with full tracing to produce a readable record
 			rec := ViolationRec{Property: *prop, Engine: opt.Engine, Tier: *tier, VerifSeed: *seed, Run: i, WorkerFrom: *from, Env: swarmEnv(),
-				Draws: ch.Values(), Violation: f, Signature: sig, Config: res.Config, Trace: res.Trace, Faults: res.Faults}
+				Draws: ch.Values(), Violation: f, Signature: sig, Config: res.Config, Trace: res.Trace, Faults: res.Faults, RaceBuild: simrt.RaceEnabled && opt.Engine != "async"}
+			if opt.Scenario >= 0 {
+				sc := opt.Scenario
+				rec.Scenario = &sc
+			}
 			w.Violations = append(w.Violations, rec)
 		}
 		if failed {
@@ -410,7 +441,7 @@ func replayOnce(rec ViolationRec, draws []int, rl *raceLog, anySig bool) (*Failu
 		// a run that never returned has no recorded draws: it is identified by (VERIF_SEED, run index)
 		ch = simrt.NewChooser(simrt.Mix(rec.VerifSeed, uint64(rec.Run)))
 	}
-	opt := Options{Prop: rec.Property, Engine: rec.Engine, Tier: rec.Tier, KeepTrace: true, Scenario: -1}
+	opt := Options{Prop: rec.Property, Engine: rec.Engine, Tier: rec.Tier, KeepTrace: true, Scenario: rec.scenario()}
 	res, _ := oneRun(ch, opt, rl)
 	var first *Failure
 	for i := range res.Failures {
@@ -443,7 +474,7 @@ func cmdReplay(args []string) {
 	if rec.RunFrom != nil {
 		// state carried from earlier runs of the same process is part of this finding: re-execute the whole range
 		rl := newRaceLog()
-		opt := Options{Prop: rec.Property, Engine: rec.Engine, Tier: rec.Tier, Scenario: -1}
+		opt := Options{Prop: rec.Property, Engine: rec.Engine, Tier: rec.Tier, Scenario: rec.scenario()}
 		for i := *rec.RunFrom; i <= rec.Run; i++ {
 			ch := simrt.NewChooser(simrt.Mix(rec.VerifSeed, uint64(i)))
 			res, _ := oneRun(ch, opt, rl)
